@@ -205,6 +205,22 @@ impl Chunking {
         } else {
             (None, None)
         };
+        // true (unquantised) instants: the same configuration with Linear interpolation / degree
+        let true_inst: Option<Vec<f64>> = if ia.is_some() {
+            let mut c = a.clone();
+            c.interp = Interp::Linear;
+            c.degree = Deg::Linear;
+            let mut r = build_probed(&c, false).ok().map(|x| x.0);
+            r.as_mut().and_then(|r| {
+                r.check_alloc = false;
+                if let Some(v) = pre_ratio {
+                    r.step(&Op::SetRatio { v, ramp: false, rel: false });
+                }
+                stream(r, n_in, None, 2_000_000).ok()
+            })
+        } else {
+            None
+        };
         let quantum = if a.kind.is_sinc() { 1.0 / a.oversampling as f64 } else { 1.0 };
         let peak = 1.0f64;
         let m_idx = (a.chunk.max(b.chunk) as f64) * (1.0f64).max(1.0 / r_eff) + 3.0 * a.flen() as f64 + 16.0;
@@ -223,7 +239,17 @@ impl Chunking {
             }
             if let (Some(ia), Some(ib)) = (&ia, &ib) {
                 if j < ia.len() && j < ib.len() && ia[j] != ib[j] {
-                    if (ia[j] - ib[j]).abs() <= quantum * 1.000001 + 1e-9 {
+                    // legitimate only if the true instant lies within rounding of a decision boundary
+                    // (sinc Nearest rounds to the grid: boundary at half steps; polynomial Nearest floors: boundary at integers)
+                    let ambiguous = match &true_inst {
+                        Some(t) if j < t.len() => {
+                            let tau = t[j] - 1.0;
+                            let x = if a.kind.is_sinc() { tau * a.oversampling as f64 - 0.5 } else { tau };
+                            (x - x.round()).abs() < 1e-5 * (1.0 + a.oversampling as f64 * 0.0) + 1e-6
+                        }
+                        _ => false,
+                    };
+                    if ambiguous && (ia[j] - ib[j]).abs() <= quantum * 1.000001 + 1e-9 {
                         excluded += 1;
                         continue;
                     }
@@ -591,7 +617,13 @@ impl Poly {
         }
         let sig = Sig { seed: 0, kind: sigkind };
         // pass 1: instants from the index signal (f64; the position arithmetic is f64 for both sample types)
-        let (mut ri, _) = match build_probed(&cfg, false) {
+        // Nearest: the index signal only yields floor(instant) through the code under test itself, so the true
+        // instants are measured with the Linear degree of the same variant (same position arithmetic)
+        let mut cfg_inst = cfg.clone();
+        if cfg.degree == Deg::Nearest {
+            cfg_inst.degree = Deg::Linear;
+        }
+        let (mut ri, _) = match build_probed(&cfg_inst, false) {
             Ok(x) => x,
             Err(e) => {
                 cr.inconclusive = Some(e);
@@ -635,7 +667,7 @@ impl Poly {
             }
             if let Some(p) = prev_tau {
                 let d = tau - p;
-                let tol = if nearest { 1.0 + 1e-9 } else { 1e-9f64.max(256.0 * ulp(tau)) };
+                let tol = 1e-9f64.max(256.0 * ulp(tau));
                 if (d - t).abs() > tol {
                     cr.viols.push(Viol::new("C08", "instants_not_uniform", format!("frame {}: spacing {} != 1/ratio {}", j, d, t)));
                     break;
@@ -643,12 +675,15 @@ impl Poly {
             }
             prev_tau = Some(tau);
             if nearest {
-                // output must be the input sample at floor(true instant): tau here is already floor()
-                let want = sig.at(0, tau as u64);
+                // output must be the input sample at or just before the true instant
+                if (tau - tau.round()).abs() < 1e-6 {
+                    continue; // decision within rounding of an integer: either neighbour is legitimate
+                }
+                let want = sig.at(0, tau.floor() as u64);
                 let got = vals[j].f64();
                 checked += 1;
                 if (got - T::of64(want).f64()).abs() > 0.0 {
-                    cr.viols.push(Viol::new("C08", "nearest_not_a_sample", format!("frame {}: output {:e} is not input sample {} = {:e}", j, got, tau as u64, want)));
+                    cr.viols.push(Viol::new("C08", "nearest_not_the_sample_at_or_before", format!("frame {} evaluated at input time {}: output {:e} is not input sample {} = {:e}", j, tau, got, tau.floor() as u64, want)));
                     break;
                 }
                 continue;
